@@ -112,9 +112,9 @@ def list_install_plan(coredata: cdata.CoreData, builddata: build.Build, backend:
 
     return plan
 
-def get_target_dir(coredata: cdata.CoreData, subdir: str) -> str:
+def get_target_dir(coredata: cdata.CoreData, subdir: str, build_subdir: str = '') -> str:
     if coredata.optstore.get_value_for(OptionKey('layout')) == 'flat':
-        return 'meson-out'
+        return os.path.join('meson-out', build_subdir) if build_subdir else 'meson-out'
     else:
         return subdir
 
@@ -180,7 +180,7 @@ def list_targets(coredata: cdata.CoreData, builddata: build.Build, backend: back
             # The outputs of a compile-only target are written into its private directory
             outdir = backend.get_target_private_dir(target)
         else:
-            outdir = get_target_dir(builddata.environment.coredata, target.get_builddir())
+            outdir = get_target_dir(builddata.environment.coredata, target.get_builddir(), target.get_build_subdir())
         t = {
             'name': target.get_basename(),
             'id': idname,
